@@ -7,6 +7,12 @@ value of every unfiltered shape; tables + indicators + criteria go to the Coq mo
 equal algorithm.result.* exactly (NaN pattern and every surviving value).  A second stream compares the gen.HC_* /
 gen.applymask functions with the model functions on synthetic tables (exact zeros, conjugates in another order, ties).
 Oracle: the property text in NumPy on the same runs.
+Indicators instantiated (Model/M_hc_inst.v): gen.MPC / gen.MPD of synthetic shapes and of shapes taken from the class runs, and of
+their conjugates, against mpc_inst / mpd_terms_at (the singular vector comes from this harness' own numpy.linalg.svd call); the
+table-structure hypotheses of C09_conj_closed_*_inst (Xi is the damping of Lambds; mirror images) are evaluated on the unfiltered
+tables of every configuration and, where they hold, conjugate closure of the result is demanded without any margin.
+Order axis: the gen.HC_* / gen.applymask sequence of the run() methods is driven directly with tables restricted to order
+columns 0, step, 2*step, ... (strided views), to gaps, permutations and repetitions, against run_ssi / run_pl of (sel_ssi / sel_pl).
 """
 import glob
 import json
@@ -17,12 +23,16 @@ from fractions import Fraction
 import numpy as np
 from scipy import signal
 
-from common import VERIF, clist, parse_q, qq
+from common import VERIF, clist, parse_q, qc, qc_c, qq
 from pyoma2.algorithms import SSIcov, SSIcov_MS, SSIdat, SSIdat_MS, pLSCF, pLSCF_MS
 from pyoma2.functions import fdd, gen, plscf, ssi
 from pyoma2.setup import MultiSetup_PreGER, SingleSetup
 
 HEADER = "From PyOMA.Model Require Import M_hc."
+HEADER_INST = "From PyOMA.Model Require Import M_indicators M_hc M_hc_inst."
+PRIV_RNG = [None]  # generator of the instantiated-indicator / order-axis streams, derived from the seed in run()
+MIRROR_JOBS = []  # (Coq expression of mirror_ssib / mirror_plb on the unfiltered tables of a configuration, case, NumPy reading)
+REAL_SHAPES = []  # shapes of the unfiltered tables of the class runs (filled by run_config, read by inst_stream)
 REL = 1e-9
 CLASSES = {"SSIcov": SSIcov, "SSIdat": SSIdat, "SSIcov_MS": SSIcov_MS, "SSIdat_MS": SSIdat_MS, "pLSCF": pLSCF, "pLSCF_MS": pLSCF_MS}
 FS = 32.0
@@ -265,6 +275,11 @@ def oq(x):
 def oc(z):
     z = complex(z)
     return "(Some (%s, %s))" % (qq(z.real), qq(z.imag)) if (fin(z.real) and fin(z.imag)) else "None"
+
+
+def oc_qc(z):
+    z = complex(z)
+    return "(Some %s)" % qc_c(z) if (fin(z.real) and fin(z.imag)) else "None"
 
 
 def t2(a, f=oq):
@@ -790,6 +805,22 @@ def run_config(ctx, spec, hcs, exprs, meta, corpus=False):
     if not all(np.isfinite(U[k][~np.isnan(U[k])]).all() for k in ("Fn", "Xi", "Lam")):
         ctx.hist("unfiltered tables with infinite entries (read as nan by the model)", spec["cls"])
     mpc, mpd = indicators(U["Phi"])
+    st = U["_struct"] = table_structure(U)
+    ctx.hist("unfiltered tables: Xi is the damping of Lambds / mirror images / conjugates in the column of their pole",
+             "%s: %s/%s/%s" % ("pLSCF*" if pl else "SSI*", st["xi_table"], st["mirror"], st["local"]))
+    cells = [(i, o) for i in range(U["Phi"].shape[0]) for o in range(U["Phi"].shape[1]) if np.isfinite(U["Phi"][i, o, :].real).all()]
+    for j in PRIV_RNG[0].permutation(len(cells))[:3]:  # a private generator: the streams above see the same random numbers as before
+        REAL_SHAPES.append(np.array(U["Phi"][cells[j][0], cells[j][1], :], complex))
+    tag = spec["cls"] + ("+unc" if spec.get("calc_unc") else "")
+    if not corpus and sum(1 for j in MIRROR_JOBS if j[1]["cls"] == tag) < ctx.n(1, 3) and U["Fn"].size <= 132:
+        # the executable form of the mirror-image hypothesis (C09_mirror_structure_sound) evaluated in Coq on these very tables
+        t3 = clist([clist([clist([oc_qc(z) for z in v]) for v in row]) for row in U["Phi"]])
+        if pl:
+            term = "showB (mirror_plb %d %d {| pFn := []; pXi := []; pPhi := %s; pLam := %s |})" % (U["Fn"].shape[0], U["Fn"].shape[1], t3, t2(U["Lam"], oc))
+        else:
+            term = "showB (@mirror_ssib nat %d %d {| sFn := []; sXi := []; sPhi := %s; sLam := %s; sFnC := %s; sXiC := None; sPhiC := None |})" % (
+                U["Fn"].shape[0], U["Fn"].shape[1], t3, t2(U["Lam"], oc), "None" if U["FnC"] is None else "(Some %s)" % t2(U["FnC"]))
+        MIRROR_JOBS.append((term, dict(cls=tag, spec={k: v for k, v in spec.items() if not k.startswith("_")}), bool(st["mirror"])))
     ctx.hist("class", spec["cls"] + ("+unc" if spec.get("calc_unc") else ""))
     if not pl:
         ctx.hist("class x method parameter", "%s(method=%s)%s" % (spec["cls"], spec.get("method"), "+unc" if spec.get("calc_unc") else ""))
@@ -848,6 +879,7 @@ def judge(ctx, case, cls, U, mpc, mpd, R, hc, pl, exprs, meta, stage, neutral=Fa
     ctx.count(case, nontrivial=bool(0 < alive < total) or neutral)
     ctx.hist("surviving fraction", "none" if alive == 0 else ("all" if alive == total else ("<10%" if 10 * alive < total else "%d0%%" % min(9, int(10 * alive / max(total, 1))))))
     ctx.sample(dict(case, poles_unfiltered=total, poles_left=alive), limit=4)
+    bad = bad + mirror_oracle(U, R, mpc, mpd, hc)
     for what, site in bad[:3]:
         ctx.fail("oracle", "%s%s: %s" % (cls, " (%s)" % stage if stage else "", what), case, key="C09:%s:%s%s" % (cls, stage + ":" if stage else "", site))
     if model:
@@ -1028,6 +1060,461 @@ def gen_multi(rng, family, quick):
     return algs
 
 
+
+# ----------------------------------------------------------------------------------------------- table structure (hypotheses of C09_conj_closed_*_inst)
+def table_structure(U):
+    """xi_table / mirror_ssi / conj_local of Model/M_hc_inst.v read on unfiltered tables (bit for bit).
+    Returns dict(xi_table, mirror, local, partner) with partner[(i,o)] = the mirror cell of (i,o) for every pole whose conjugate occurs."""
+    Lam, Xi, Phi, FnC = U["Lam"], U["Xi"], U["Phi"], U.get("FnC")
+    nr, nc = Lam.shape
+    where = {}
+    for i in range(nr):
+        for o in range(nc):
+            z = complex(Lam[i, o])
+            if z == z:
+                where.setdefault(z, []).append((i, o))
+    with np.errstate(all="ignore"):
+        xi_ref = -(Lam.real / np.abs(Lam))
+    fin_l = ~np.isnan(Lam)
+    xi_ok = bool(np.all(~fin_l | (xi_ref == Xi) | (np.isnan(xi_ref) & np.isnan(Xi)) | (np.isinf(xi_ref) & ~np.isfinite(Xi))))
+    mirror, local, partner = True, True, {}
+    for z, cells in where.items():
+        ps = where.get(z.conjugate())
+        if not ps:
+            continue
+        for (i, o) in cells:
+            if not any(b == o for (_, b) in ps):
+                local = False
+            found = None
+            for (a, b) in ps:
+                pa, pb = Phi[a, b, :], np.conj(Phi[i, o, :])
+                if not (np.isfinite(pa.real).all() and np.isfinite(pa.imag).all() and (pa.real == pb.real).all() and (pa.imag == pb.imag).all()):
+                    continue
+                if FnC is not None and not same_float(float(FnC[a, b]), float(FnC[i, o])):
+                    continue
+                found = (a, b)
+                break
+            if found is None:
+                mirror = False
+            else:
+                partner[(i, o)] = found
+    return dict(xi_table=xi_ok, mirror=mirror, local=local, partner=partner)
+
+
+def mirror_oracle(U, R, mpc, mpd, hc):
+    """C09_conj_closed_*_inst read on the implementation: where the unfiltered tables have the structure the theorem assumes (damping
+    bit-equal, conjugate shape, equal covariance) and the library's indicators are bit-equal for a pole and its mirror image, the mirror
+    image of every surviving pole survives - no margin: both cells get the same decisions."""
+    st = U.get("_struct")
+    if st is None:
+        st = U["_struct"] = table_structure(U)
+    if not hc["conj"]:
+        return []
+    alive = ~np.isnan(R["Fn"])
+    for (i, o), (a, b) in st["partner"].items():
+        if alive[i, o] and not alive[a, b]:
+            if same_float(float(U["Xi"][i, o]), float(U["Xi"][a, b])) and mpc[i][o] == mpc[a][b] and mpd[i][o] == mpd[a][b] and fin(float(U["Fn"][a, b])):
+                return [("pole (row %d, col %d) survives but its mirror image (row %d, col %d: conjugate eigenvalue and shape, same damping, MPC, MPD, covariance) was removed" % (i, o, a, b),
+                         "conj-mirror-removed")]
+    return []
+
+
+# ----------------------------------------------------------------------------------------------- indicators instantiated
+def svd_witness(v):
+    """(V[0,1], V[1,1], relative gap of the singular values) from this harness' own SVD of [Re v, Im v]."""
+    _, sv, VT = np.linalg.svd(np.c_[v.real, v.imag])
+    gap = 1.0 if len(sv) < 2 else (float((sv[0] - sv[1]) / sv[0]) if sv[0] > 0 else 0.0)
+    return float(VT[1, 0]), float(VT[1, 1]), gap
+
+
+def c09_mpd_from_terms(t, delta=1e-14):
+    """'w2,c2 w2,c2 ...' (exact rationals from the model) -> (sum w arccos(c) / sum w, conditioning allowance); NumPy's sqrt / arccos."""
+    t = t.strip()
+    if t == "nan" or not t:
+        return None, 0.0
+    ws, cs = [], []
+    for x in t.split(" "):
+        a, b = x.split(",")
+        ws.append(math.sqrt(float(parse_q(a))))
+        cs.append(math.sqrt(float(parse_q(b))))
+    ws, cs = np.array(ws), np.array(cs)
+    tot = ws.sum()
+    val = float((ws * np.arccos(np.clip(cs, 0, 1))).sum() / tot)
+    slack = float((ws * (np.arccos(np.clip(cs - delta, 0, 1)) - np.arccos(np.clip(cs + delta, 0, 1)))).sum() / tot)
+    return val, slack
+
+
+def indicator_oracle(v):
+    """MPC and MPD of a finite shape from their definitions, NumPy only, no SVD / eigenvalue routine: MPC = ((Sxx-Syy)^2 + 4 Sxy^2) / (Sxx+Syy)^2 with
+    the centred second moments of (Re, Im); MPD = |phi|-weighted mean angle between each component and the best straight line through the origin of
+    the complex plane (principal axis of the uncentred moments).  Returns (mpc | None, mpd | None, well_determined)."""
+    re, im = v.real, v.imag
+    mpc = mpd = None
+    det = True
+    if len(v) > 1:
+        a, b = re - re.mean(), im - im.mean()
+        sxx, syy, sxy = float(a @ a), float(b @ b), float(a @ b)
+        if sxx + syy > 0:
+            mpc = ((sxx - syy) ** 2 + 4 * sxy * sxy) / (sxx + syy) ** 2
+    w = np.abs(v)
+    if w.sum() > 0:
+        gxx, gyy, gxy = float(re @ re), float(im @ im), float(re @ im)
+        rad = math.hypot((gxx - gyy) / 2, gxy)
+        det = rad > 1e-6 * (gxx + gyy)
+        th = 0.5 * math.atan2(2 * gxy, gxx - gyy)
+        nz = w > 0
+        r = np.clip(np.abs(re[nz] * math.cos(th) + im[nz] * math.sin(th)) / w[nz], 0.0, 1.0)
+        # angle to the line = arcsin of the normalised distance = arccos of the normalised projection
+        mpd = float((w[nz] * np.arccos(r)).sum() / w[nz].sum())
+    return mpc, mpd, det
+
+
+def shape_term(v):
+    return clist(["(Some %s)" % qc_c(z) if (fin(complex(z).real) and fin(complex(z).imag)) else "None" for z in v])
+
+
+def synth_shape(rng, k):
+    nch = int(rng.integers(1, 5)) if k % 7 else 1
+    d = lambda: float(rng.integers(-16, 17)) / 8.0
+    kind = ["general", "general", "general", "collinear", "constant", "zero", "nan", "zero-entry"][k % 8]
+    v = np.array([complex(d(), d()) for _ in range(nch)], complex)
+    if kind == "collinear":
+        v = complex(d() or 1.0, d()) * np.array([d() for _ in range(nch)], complex)
+    elif kind == "constant":
+        v = np.full(nch, complex(d() or 0.5, d()), complex)
+    elif kind == "zero":
+        v = np.zeros(nch, complex)
+    elif kind == "nan":
+        v[int(rng.integers(nch))] = complex(np.nan, np.nan)
+    elif kind == "zero-entry":
+        v[int(rng.integers(nch))] = 0.0
+    return v, kind
+
+
+def inst_stream(ctx, rng, n, corpus_shapes=()):
+    T = 1e-9
+    todo = [(np.array([complex(a, b) for a, b in sh], complex), "corpus") for sh in corpus_shapes]
+    todo += [synth_shape(rng, k) for k in range(n)]
+    pick = list(range(len(REAL_SHAPES)))
+    rng.shuffle(pick)
+    todo += [(REAL_SHAPES[j], "class-run") for j in pick[: ctx.n(24, 200)]]
+    exprs, meta = [], []
+    for v, kind in todo:
+        vc = np.conj(v)
+        case = dict(kind="indicator", shape=[[float(z.real), float(z.imag)] for z in v], origin=kind)
+        ctx.count(case, nontrivial=bool(np.isfinite(v.real).all() and np.abs(v).max() > 0 and len(v) > 1))
+        ctx.hist("indicator stream: shape kind", kind)
+        got = dict(mpc=indicator(gen.MPC, v.copy()), mpd=indicator(gen.MPD, v.copy()), mpc_c=indicator(gen.MPC, vc.copy()), mpd_c=indicator(gen.MPD, vc.copy()))
+        try:
+            v0, v1, gap = svd_witness(v)
+            w0, w1, gapc = svd_witness(vc)
+        except Exception:  # nan entries: numpy.linalg.svd raises, gen.MPD raises, the model says nan
+            v0, v1, gap, w0, w1, gapc = 0.0, 1.0, 1.0, 0.0, 1.0, 1.0
+        if min(gap, gapc) > 1e-6 and abs(w0 * v1 + w1 * v0) > 1e-7:
+            ctx.fail("correspondence", "numpy.linalg.svd: the second right-singular vector of [Re, -Im] is not a multiple of the mirror image of that of [Re, Im] "
+                     "(contract assumed by C09_indicators_conj_inst / C09_conj_closed_*_inst)", case, key="C09:svd:mirror-contract")
+        if np.isfinite(v.real).all() and np.isfinite(v.imag).all():
+            # oracle: the indicators the criteria compare with their limits are MPC and MPD (definitions above), for the shape and its conjugate
+            o_mpc, o_mpd, o_det = indicator_oracle(v)
+            for nm, gc, gd in (("shape", got["mpc"], got["mpd"]), ("conjugate shape", got["mpc_c"], got["mpd_c"])):
+                if (o_mpc is None) != (gc is None) or (o_mpc is not None and abs(o_mpc - gc) > 1e-7):
+                    ctx.fail("oracle", "gen.MPC(%s) = %r is not the modal phase collinearity %r of the shape: HC_phi_comp compares another quantity with mpc_lim" % (nm, gc, o_mpc),
+                             case, key="C09:MPC:value")
+                if (o_mpd is None) != (gd is None):
+                    ctx.fail("oracle", "gen.MPD(%s) = %r, mean phase deviation %r" % (nm, gd, o_mpd), case, key="C09:MPD:value")
+                elif o_mpd is not None and o_det and min(gap, gapc) > 1e-6 and abs(o_mpd - gd) > 1e-6 + 1e-3 * min(o_mpd, 1e-3):
+                    # (below 1e-3 rad the arccos of a rounded cosine carries an absolute error up to ~1e-8/mpd: allowance 1e-6)
+                    ctx.fail("oracle", "gen.MPD(%s) = %r is not the mean phase deviation %r of the shape: HC_phi_comp compares another quantity with mpd_lim" % (nm, gd, o_mpd),
+                             case, key="C09:MPD:value")
+        exprs.append('let x := %s in showOQ\' (mpc_inst x) ++ "|" ++ showOT (mpd_terms_at x %s %s) ++ "|" ++ showOQ\' (mpc_inst (conj_shape x)) ++ "|" ++ showOT (mpd_terms_at (conj_shape x) %s %s)'
+                     % (shape_term(v), qc(v0), qc(v1), qc(w0), qc(w1)))
+        meta.append((case, got, min(gap, gapc)))
+        # the pair as HC_phi_comp decides it: limits just inside / just outside the values of the shape; its conjugate must be decided alike
+        if got["mpc"] is not None and got["mpd"] is not None and len(v) > 1:
+            tbl = np.array([[v, vc]], complex)
+            for side, (lc, ld) in (("inside", (got["mpc"] * (1 - 1e-6) - 1e-12, got["mpd"] * (1 + 1e-6) + 1e-12)), ("outside", (got["mpc"] * (1 + 1e-6) + 1e-12, got["mpd"] * (1 - 1e-6) - 1e-12))):
+                try:
+                    md, mc = gen.HC_phi_comp(tbl.copy(), lc, ld)
+                except Exception as e:
+                    ctx.fail("oracle", "gen.HC_phi_comp raised %s on a table of one pole and its conjugate" % type(e).__name__, case, key="C09:HC_phi_comp:raises")
+                    break
+                md, mc = np.asarray(md).astype(bool), np.asarray(mc).astype(bool)
+                want = side == "inside"
+                ill = gap <= 1e-6 or gapc <= 1e-6 or got["mpd"] < 1e-6  # MPD at the arccos singularity / undetermined singular vector: not judged
+                if md.shape != (1, 2) or mc[0, 0] != mc[0, 1] or (not ill and md[0, 0] != md[0, 1]):
+                    ctx.fail("oracle", "gen.HC_phi_comp decides a pole and its conjugate differently (limits %s the pole's MPC / MPD by 1e-6): the conjugate of a surviving pole is removed"
+                             % side, dict(case, mpc_lim=lc, mpd_lim=ld), key="C09:HC_phi_comp:conj-alike")
+                elif mc[0, 0] != want or (not ill and md[0, 0] != want):
+                    ctx.fail("oracle", "gen.HC_phi_comp: masks are not (MPD <= mpd_lim, MPC >= mpc_lim) with limits %s the values" % side, dict(case, mpc_lim=lc, mpd_lim=ld), key="C09:HC_phi_comp:mask")
+    return exprs, lambda res: inst_finish(ctx, meta, res)
+
+
+def inst_finish(ctx, meta, res):
+    T = 1e-9
+    for (case, got, gap), out in zip(meta, res):
+        a, t, ac, tc = out.split("|")
+        for nm, mq, mt, gc, gd in (("shape", a, t, got["mpc"], got["mpd"]), ("conjugate shape", ac, tc, got["mpc_c"], got["mpd_c"])):
+            m = parse_q(mq)
+            if (m is None) != (gc is None) or (m is not None and abs(float(m) - gc) > T):
+                ctx.fail("correspondence", "gen.MPC(%s) = %r, mpc_inst says %s" % (nm, gc, "nan" if m is None else float(m)), case, key="C09:MPC:inst-corr")
+            w, slack = c09_mpd_from_terms(mt)
+            if (w is None) != (gd is None):
+                ctx.fail("correspondence", "gen.MPD(%s) = %r, mpd_inst says %s" % (nm, gd, "nan" if w is None else w), case, key="C09:MPD:inst-corr")
+            elif w is not None:
+                if gap <= 1e-6:
+                    ctx.not_judged += 1  # (nearly) equal singular values: the singular vector is not determined
+                elif abs(w - gd) > T * max(1.0, abs(w)) + slack:
+                    ctx.fail("correspondence", "gen.MPD(%s) = %r, mpd_inst (terms, NumPy sqrt/arccos) says %r" % (nm, gd, w), case, key="C09:MPD:inst-corr")
+        if a != ac:
+            ctx.fail("correspondence", "model: mpc_inst differs for a shape and its conjugate (C09_indicators_conj_inst)", case, key="C09:MPC:model-conj")
+        # the implementation on the pair (theorem C09_indicators_conj_inst read on the code)
+        if (got["mpc"] is None) != (got["mpc_c"] is None) or (got["mpc"] is not None and abs(got["mpc"] - got["mpc_c"]) > T):
+            ctx.fail("correspondence", "gen.MPC differs for a shape and its conjugate: %r vs %r" % (got["mpc"], got["mpc_c"]), case, key="C09:MPC:conj-invariance")
+        if (got["mpd"] is None) != (got["mpd_c"] is None):
+            ctx.fail("correspondence", "gen.MPD is nan for one of a shape and its conjugate only", case, key="C09:MPD:conj-invariance")
+        elif got["mpd"] is not None and gap > 1e-6:
+            _, slack = c09_mpd_from_terms(t)
+            if abs(got["mpd"] - got["mpd_c"]) > T * max(1.0, got["mpd"]) + 2 * slack:
+                ctx.fail("correspondence", "gen.MPD differs for a shape and its conjugate: %r vs %r" % (got["mpd"], got["mpd_c"]), case, key="C09:MPD:conj-invariance")
+
+
+# ----------------------------------------------------------------------------------------------- the order axis
+def hc_sequence(T, hc, pl):
+    """The 'Apply HARD CRITERIA' block of SSIdat.run / SSIdat_MS.run (pl=False) and pLSCF.run / pLSCF_MS.run (pl=True), call for call, on
+    GIVEN unfiltered tables (the SSI classes cannot produce tables for step > 1: SSI_poles indexes columns by order)."""
+    Fns, Xis, Phis, Lambds = T["Fn"], T["Xi"], T["Phi"], T["Lam"]
+    if pl:
+        if hc["conj"]:
+            Lambds, mask1 = gen.HC_conj(Lambds)
+            Fns, Xis, Phis = gen.applymask([Fns, Xis, Phis], mask1, Phis.shape[2])
+        Xis, mask2 = gen.HC_damp(Xis, hc["xi_max"])
+        Fns, Phis = gen.applymask([Fns, Phis], mask2, Phis.shape[2])
+        mask3, mask4 = gen.HC_phi_comp(Phis, hc["mpc_lim"], hc["mpd_lim"])
+        Fns, Xis, Phis = gen.applymask([Fns, Xis, Phis], mask3, Phis.shape[2])
+        Fns, Xis, Phis = gen.applymask([Fns, Xis, Phis], mask4, Phis.shape[2])
+        return dict(Fn=Fns, Xi=Xis, Phi=Phis)
+    Fn_cov, Xi_cov, Phi_cov = T["FnC"], T["XiC"], T["PhiC"]
+    if hc["conj"]:
+        Lambds, mask1 = gen.HC_conj(Lambds)
+        Fns, Xis, Phis, Fn_cov, Xi_cov, Phi_cov = gen.applymask([Fns, Xis, Phis, Fn_cov, Xi_cov, Phi_cov], mask1, Phis.shape[2])
+    Xis, mask2 = gen.HC_damp(Xis, hc["xi_max"])
+    Fns, Lambds, Phis, Fn_cov, Xi_cov, Phi_cov = gen.applymask([Fns, Lambds, Phis, Fn_cov, Xi_cov, Phi_cov], mask2, Phis.shape[2])
+    mask3, mask4 = gen.HC_phi_comp(Phis, hc["mpc_lim"], hc["mpd_lim"])
+    Fns, Xis, Phis, Lambds, Fn_cov, Xi_cov, Phi_cov = gen.applymask([Fns, Xis, Phis, Lambds, Fn_cov, Xi_cov, Phi_cov], mask3, Phis.shape[2])
+    Fns, Xis, Phis, Lambds, Fn_cov, Xi_cov, Phi_cov = gen.applymask([Fns, Xis, Phis, Lambds, Fn_cov, Xi_cov, Phi_cov], mask4, Phis.shape[2])
+    if Fn_cov is not None:
+        Fn_cov, mask5 = gen.HC_cov(Fn_cov, hc["cov_max"])
+        Fns, Xis, Phis, Lambds, Xi_cov, Phi_cov = gen.applymask([Fns, Xis, Phis, Lambds, Xi_cov, Phi_cov], mask5, Phis.shape[2])
+    return dict(Fn=Fns, Xi=Xis, Phi=Phis, Lam=Lambds, FnC=Fn_cov, XiC=Xi_cov, PhiC=Phi_cov)
+
+
+def order_tables(rng, nr, nc, nch, cov, local):
+    """Unfiltered tables over orders 0..nc-1 as one eigenvalue problem per order gives them: conjugate pairs (with conjugate shapes, equal damping
+    and covariance) in the column of the order, real poles, poles without conjugate; local=False moves some conjugates to ANOTHER order."""
+    d = lambda: float(rng.integers(-8, 9)) / 8.0
+    Lam = np.full((nr, nc), np.nan, complex)
+    Fn = np.full((nr, nc), np.nan)
+    Xi = np.full((nr, nc), np.nan)
+    FnC = np.full((nr, nc), np.nan)
+    Phi = np.full((nr, nc, nch), np.nan, complex)
+    for o in range(nc):
+        i = 0
+        while i < min(nr, o + 1 if rng.random() < 0.6 else nr):
+            z = complex(-abs(d()) if rng.random() < 0.85 else abs(d()), d())
+            v = np.array([complex(d(), d()) for _ in range(nch)], complex)
+            x, f, c = abs(d()) / 2 if rng.random() < 0.85 else -abs(d()) / 4, abs(z) or 1.0, abs(d()) / 4
+            r = rng.random()
+            if r < 0.6 and i + 1 < nr and z.imag != 0:  # a conjugate pair
+                Lam[i, o], Lam[i + 1, o] = z, z.conjugate()
+                Phi[i, o, :], Phi[i + 1, o, :] = v, np.conj(v)
+                Xi[i, o] = Xi[i + 1, o] = x
+                Fn[i, o] = Fn[i + 1, o] = f
+                FnC[i, o] = FnC[i + 1, o] = c
+                i += 2
+            else:  # a real pole (its own conjugate) or a pole whose conjugate is absent
+                if r < 0.8:
+                    z, v = complex(z.real, 0.0), v.real.astype(complex)
+                Lam[i, o], Phi[i, o, :], Xi[i, o], Fn[i, o], FnC[i, o] = z, v, x, f, c
+                i += 1
+    if not local:
+        for _ in range(2):
+            i, o, o2 = int(rng.integers(nr)), int(rng.integers(nc)), int(rng.integers(nc))
+            if o2 != o and Lam[i, o] == Lam[i, o] and Lam[i, o].imag != 0:
+                k = int(rng.integers(nr))
+                Lam[k, o2], Phi[k, o2, :], Xi[k, o2], Fn[k, o2], FnC[k, o2] = np.conj(Lam[i, o]), np.conj(Phi[i, o, :]), Xi[i, o], Fn[i, o], FnC[i, o]
+    XiC = np.where(np.isnan(Fn), np.nan, 0.125)
+    return dict(Fn=Fn, Xi=Xi, Phi=Phi, Lam=Lam, FnC=FnC if cov else None, XiC=XiC if cov else None, PhiC=np.full((nr, nc, nch), np.nan) if cov else None)
+
+
+def take_cols(U, sel, strided):
+    """The tables for the orders sel: a strided VIEW when sel is 0, step, 2*step, ... (what slicing an order axis gives), a copy otherwise."""
+    out = {}
+    for k, a in U.items():
+        if a is None:
+            out[k] = None
+        elif strided:
+            out[k] = a[:, sel[0]:sel[-1] + 1:strided]
+        else:
+            out[k] = a[:, sel]
+    return out
+
+
+def orders_case(ctx, U, sel, strided, hc, pl, exprs, meta, origin):
+    nr, nc, nch = U["Phi"].shape
+    mpc, mpd = indicators(U["Phi"])
+    Ts = take_cols(U, sel, strided)
+    assert all(a is None or a.shape[1] == len(sel) for a in Ts.values())
+    before = {k: (None if a is None else a.tobytes()) for k, a in Ts.items()}
+    case = dict(kind="orders", pl=pl, sel=[int(n) for n in sel], strided=int(strided), hc=hc, origin=origin,
+                U={k: (None if a is None else ([[[float(z.real), float(z.imag)] for z in r] for r in a.tolist()] if k == "Lam" else
+                                              ([[[[float(z.real), float(z.imag)] for z in v] for v in r] for r in a.tolist()] if k == "Phi" else a.tolist()))) for k, a in U.items()})
+    ctx.hist("order axis: columns handed over", "0,step,..(view)" if strided else ("permuted/repeated" if sorted(set(sel)) != list(sel) else "gaps"))
+    try:
+        R = hc_sequence(Ts, hc, pl)
+    except Exception as e:
+        ctx.fail("oracle", "the gen.HC_* / gen.applymask sequence raised %s on tables of the orders %s" % (type(e).__name__, list(sel)), case, key="C09:orders:raises")
+        return
+    R = {k: (None if v is None else np.array(v, copy=True)) for k, v in R.items()}
+    for k, a in Ts.items():
+        if a is not None and a.tobytes() != before[k]:
+            ctx.fail("correspondence", "the criteria functions modify the %s table (a view of the caller's array) they are given" % k, case, key="C09:orders:mutates-input")
+    # ---- oracle: the property text, order by order, on the tables handed over
+    Us = {k: (None if a is None else np.array(a, copy=True)) for k, a in Ts.items()}
+    Us["_pl"] = pl
+    ms = [[mpc[i][n] for n in sel] for i in range(nr)], [[mpd[i][n] for n in sel] for i in range(nr)]
+    Rj = dict(R) if not pl else dict(R, Lam=None)
+    bad, nj = oracle(Us, {k: v for k, v in Rj.items() if not (pl and k == "Lam")}, ms[0], ms[1], dict(hc, cov_max=hc.get("cov_max", 1.0)), pl)
+    ctx.not_judged += nj
+    alive = int((~np.isnan(R["Fn"])).sum())
+    total = int((~np.isnan(Us["Fn"])).sum())
+    ctx.count(dict(case, U=None, digest=[alive, total, float(np.nansum(U["Fn"]))]), nontrivial=bool(0 < alive < total))
+    for what, site in bad[:2]:
+        ctx.fail("oracle", "criteria sequence on the orders %s: %s" % (list(sel), what), case, key="C09:orders:" + site)
+    # ---- theorem C09_sound_complete_ssi_orders read on the implementation: with every conjugate in the column of its pole, the result for the
+    #      orders sel is the restriction of the result for all orders
+    st = table_structure(U)
+    if st["local"]:
+        Rfull = hc_sequence({k: (None if a is None else a.copy()) for k, a in U.items()}, hc, pl)
+        for k, a in R.items():
+            if a is None:
+                continue
+            b = np.asarray(Rfull[k])[:, sel]
+            if k == "Lam" and pl:
+                continue
+            if a.shape != b.shape or not np.array_equal(np.asarray(a), b, equal_nan=True):
+                ctx.fail("oracle", "criteria on the orders %s: table %s is not the restriction of the result for all orders (conjugates share the column of their pole): "
+                         "a pole's fate depends on which other orders are in the table" % (list(sel), k), case, key="C09:orders:restriction:" + k)
+                break
+    # ---- model
+    flat = lambda t: clist([oq(x) for row in t for x in row])
+    dall, _ = cdef(U["Phi"])
+    phi = "(tok_tbl3 %d %d %d %s)" % (nr, nc, nch, bools(dall))
+    selt = clist(["%d%%nat" % n for n in sel])
+    if pl:
+        st_ = "{| pFn := %s; pXi := %s; pPhi := %s; pLam := %s |}" % (t2(U["Fn"]), t2(U["Xi"]), phi, t2(U["Lam"], oc))
+        exprs.append("eval_pl_sel %d %s %s %s %s %s" % (nch, flat(mpc), flat(mpd), hc_term(dict(hc, cov_max=1.0)), selt, st_))
+    else:
+        opt = lambda t, f=oq: "None" if t is None else "(Some %s)" % t2(t, f)
+        phic = "None" if U["PhiC"] is None else "(Some (tok_tbl3 %d %d %d %s))" % (nr, nc, nch, bools(cdef(U["PhiC"].astype(complex))[0]))
+        st_ = "{| sFn := %s; sXi := %s; sPhi := %s; sLam := %s; sFnC := %s; sXiC := %s; sPhiC := %s |}" % (
+            t2(U["Fn"]), t2(U["Xi"]), phi, t2(U["Lam"], oc), opt(U["FnC"]), opt(U["XiC"]), phic)
+        exprs.append("eval_ssi_sel %d %s %s %s %s %s" % (nch, flat(mpc), flat(mpd), hc_term(hc), selt, st_))
+    meta.append((case, R, U, pl, list(sel)))
+
+
+def cmp3_sel(name, model, R, U3, sel, errs):
+    """tokens of the FULL table: cell (i, j) of the result must hold the entries (i, sel[j], k) of the unfiltered table."""
+    nc, nch = U3.shape[1], U3.shape[2]
+    if R is None or R.shape != (U3.shape[0], len(sel), nch) or len(model) != R.shape[0] or any(len(r) != len(sel) for r in model):
+        errs.append("%s: shape %s" % (name, None if R is None else R.shape))
+        return
+    flatU = U3.reshape(-1)
+    for i, row in enumerate(model):
+        for j, v in enumerate(row):
+            if len(v) != nch:
+                errs.append("%s[%d,%d]: channel count" % (name, i, j))
+                continue
+            for k, tok in enumerate(v):
+                z = complex(R[i, j, k])
+                if tok is None:
+                    if z == z:
+                        errs.append("%s[%d,%d,%d]: implementation keeps %r, model blanks" % (name, i, j, k, z))
+                else:
+                    u = complex(flatU[tok])
+                    if tok != (i * nc + sel[j]) * nch + k or not (same_float(z.real, u.real) and same_float(z.imag, u.imag)):
+                        errs.append("%s[%d,%d,%d]: value %r is not entry (row %d, order %d) of the unfiltered table" % (name, i, j, k, z, i, sel[j]))
+
+
+def compare_model_sel(out, R, U, pl, sel):
+    parts = out.split("|")
+    errs = []
+    if parts[0] != "T":
+        errs.append("tables do not share one shape / an order of sel is not a column (wf = %s)" % parts[0])
+    cmp2("Fn", p2(parts[1]), R["Fn"], errs)
+    cmp2("Xi", p2(parts[2]), R["Xi"], errs)
+    cmp3_sel("Phi", p3(parts[3]), R["Phi"], U["Phi"], sel, errs)
+    if not pl:
+        cmp2c("Lambds", p2c(parts[4]), R["Lam"], errs)
+        for nm, key, prs in (("Fn_cov", "FnC", parts[5]), ("Xi_cov", "XiC", parts[6])):
+            if prs == "none":
+                if R[key] is not None:
+                    errs.append("%s: implementation returns a table, model none" % nm)
+            else:
+                cmp2(nm, p2(prs), R[key], errs)
+    return errs
+
+
+def gen_sel(rng, nc, k):
+    """(sel, stride): every third case a strided view 0/off, step, 2 step ...; else gaps, permutations, repetitions."""
+    if k % 3 != 2:
+        step = int(rng.integers(2, 4))
+        off = int(rng.integers(0, step)) if k % 2 else 0
+        sel = list(range(off, nc, step))
+        if sel:
+            return sel, step
+    m = int(rng.integers(1, nc + 1))
+    if rng.random() < 0.5:
+        return sorted(rng.choice(nc, size=m, replace=False).tolist()), 0
+    return rng.choice(nc, size=m, replace=True).tolist(), 0
+
+
+def orders_stream(ctx, rng, n, corpus=()):
+    exprs, meta = [], []
+    for c in corpus:
+        U = {k: (None if a is None else (np.array([[complex(*z) for z in r] for r in a], complex) if k == "Lam" else
+                                        (np.array([[[complex(*z) for z in v] for v in r] for r in a], complex) if k == "Phi" else np.array(a, float)))) for k, a in c["U"].items()}
+        if c["pl"]:
+            U = {k: U.get(k) for k in ("Fn", "Xi", "Phi", "Lam")}
+        orders_case(ctx, U, [int(x) for x in c["sel"]], int(c.get("strided", 0)), dict(c["hc"]), bool(c["pl"]), exprs, meta, "corpus")
+    for k in range(n):
+        pl = bool(k % 4 == 3)
+        nr, nc, nch = int(rng.integers(2, 5)), int(rng.integers(3, 8)), int(rng.integers(2, 4))
+        cov = (not pl) and bool(k % 2 == 0)
+        U = order_tables(rng, nr, nc, nch, cov, local=bool(k % 5 != 4))
+        if pl:
+            U = {kk: U[kk] for kk in ("Fn", "Xi", "Phi", "Lam")}
+        mpc, mpd = indicators(U["Phi"])
+        U2 = dict(U, FnC=U.get("FnC"), _pl=pl)
+        hc = gen_hc(rng, U2, mpc, mpd, "bite" if k % 6 else "conjonly")
+        hc["conj"] = bool(k % 3 != 1)
+        if hc.get("cov_max", 0) > 1e200:
+            hc["cov_max"] = 1.0
+        if pl:
+            hc.pop("cov_max", None)
+        sel, stride = gen_sel(rng, nc, k)
+        orders_case(ctx, U, sel, stride, hc, pl, exprs, meta, "generated")
+    return exprs, lambda res: orders_finish(ctx, meta, res)
+
+
+def orders_finish(ctx, meta, res):
+    for (case, R, U, pl, sel), out in zip(meta, res):
+        errs = compare_model_sel(out, R, U, pl, sel)
+        if errs:
+            ctx.fail("correspondence", "the gen.HC_* / gen.applymask sequence on the orders %s differs from run_%s (sel_%s sel s) of the model: %s%s"
+                     % (sel, "pl" if pl else "ssi", "pl" if pl else "ssi", errs[0], " (+%d more)" % (len(errs) - 1) if len(errs) > 1 else ""),
+                     case, key="C09:orders:%scorr" % ("pl:" if pl else ""))
+
+
 def run(ctx):
     rng = ctx.np_rng
     ctx.extra["rule"] = ("(class, data-set spec, criteria record) triples; data = seeded noisy multi-mode records (<= 4 channels, ordmax <= 12), 20 % "
@@ -1041,14 +1528,28 @@ def run(ctx):
         "hypothesis of C09_sound_complete_ssi_cov / C09_joint_nan_ssi: no surviving pole has a frequency covariance exactly 0 (x*mask; x[x==0]=nan idiom of HC_cov)",
         "Phi_poles_cov is never filled by SSI_poles (all-nan before the criteria) and is outside the joint-NaN clause",
         "every generated hc / sc dict is passed with its keys in a random order (25 % alphabetical) and integral values now and then as ints; each run is judged by key against the harness's own copy",
+        "C09_conj_closed_*_inst: oracle contracts - abs (hypot) does not see the sign of the imaginary part; numpy.linalg.svd returns for [Re,-Im] a non-zero multiple of the mirror image "
+        "of the second right-singular vector it returns for [Re,Im] (checked on every shape of the indicator stream with well separated singular values); sqrt / arccos are arbitrary functions",
+        "C09_conj_closed_*_inst: table-structure hypotheses xi_table / mirror_ssi (Xi is -(Re/abs) of Lambds; a pole whose conjugate occurs has a mirror image with the conjugate shape and the same "
+        "covariance) are evaluated bit for bit on the unfiltered tables of every configuration (see the input histogram); where they hold conjugate closure is demanded of the result without margin",
+        "order axis: the SSI classes cannot run with step > 1 (SSI_poles indexes columns by order), so tables of other order axes reach the gen.HC_* functions through the harness's call-for-call copy "
+        "of the 'Apply HARD CRITERIA' block of the run() methods (hc_sequence); the class-level streams tie that block to the model for step = 1",
     ]
     exprs, meta = [], []
+    corpus_orders, corpus_shapes = [], []
+    del REAL_SHAPES[:]
+    del MIRROR_JOBS[:]
+    PRIV_RNG[0] = np.random.default_rng([int(ctx.seed), 90909])
     # ---- corpus first (repaired defect b6576bf: MPD mask dropped by the second applymask)
     def replay_case(c):
         if c.get("kind") == "rerun":
             rerun_sequence(ctx, dict(c["spec"]), [dict(h) for h in c["hcs"]], list(c.get("hows") or ["set_run_params"]), exprs, meta)
         elif c.get("kind") == "multi":
             multi_instance(ctx, [[dict(spec=dict(a["spec"]), hc=a.get("hc"), sc=a.get("sc")) for a in algs] for algs in c["groups"]], exprs, meta)
+        elif c.get("kind") == "orders":
+            corpus_orders.append(c)
+        elif c.get("kind") == "indicator":
+            corpus_shapes.append(c["shape"])
         elif "spec" in c and "hc" in c:
             run_config(ctx, dict(c["spec"]), [c["hc"]], exprs, meta, corpus=True)
 
@@ -1124,3 +1625,16 @@ def run(ctx):
                      case, key="C09:%s:%scorr" % (case["spec"]["cls"], stage + ":" if stage else ""))
     # ---- the criteria functions themselves on synthetic tables
     function_stream(ctx, rng, ctx.n(60, 400))
+    # ---- the indicators instantiated (mpc_inst / mpd_inst) on shapes and their conjugates; the criteria sequence on other order axes
+    e1, fin1 = inst_stream(ctx, PRIV_RNG[0], ctx.n(40, 400), corpus_shapes)
+    e2, fin2 = orders_stream(ctx, PRIV_RNG[0], ctx.n(36, 300), corpus_orders)
+    e3 = [j[0] for j in MIRROR_JOBS]
+    allx = e1 + e2 + e3
+    res = ctx.coq_eval(HEADER_INST, allx, shard=max(6, (len(allx) + 13) // 14), timeout=2700)  # one round of <= 14 parallel shards
+    fin1(res[: len(e1)])
+    fin2(res[len(e1): len(e1) + len(e2)])
+    for (term, case, np_says), out in zip(MIRROR_JOBS, res[len(e1) + len(e2):]):
+        ctx.hist("mirror-image hypothesis of C09_conj_closed_*_inst evaluated in Coq on unfiltered tables of real runs", "%s: %s" % (case["cls"], out))
+        if (out == "T") != np_says:
+            ctx.fail("correspondence", "the model's mirror_ssib / mirror_plb (%s) and the harness's NumPy reading (%s) of the mirror-image structure of the unfiltered "
+                     "tables disagree" % (out, np_says), case, key="C09:mirror:structure")
